@@ -22,7 +22,7 @@ Local Open Scope N_scope.
                                               SCRIPT_NAME being the configured one unless a presented SCRIPT_NAME
                                               field exists (C08 says who may present one)
    [present] is the header-name policy (which fields are forwarded at all), the subject of C08. *)
-Theorem C15_environ_faithful : forall inet4_ok inet6_ok netloc_ok c p reqno data r rest i e,
+Theorem C15_environ_faithful : forall (inet4_ok inet6_ok : bytes -> inet_res) (netloc_ok : bytes -> bool) c p reqno data r rest i e,
   safe_cfg c = true ->
   parse_request inet4_ok inet6_ok netloc_ok c p reqno data = PAccept r rest ->
   wsgi_create c (set_ppi r i) p = inr e ->
@@ -79,6 +79,7 @@ Proof. vm_compute. reflexivity. Qed.
 
 (* ---- non-vacuity and witnesses ------------------------------------------------------------------------------- *)
 Definition yes (_ : bytes) : bool := true.
+Definition ok (_ : bytes) : inet_res := IOk.
 Definition cfg0 : cfg :=
   {| forwarded_allow_ips := default_forwarded_allow_ips; forwarder_headers := default_forwarder_headers;
      secure_scheme_headers := default_secure_scheme_headers; header_map := Drop;
@@ -89,7 +90,7 @@ Definition cfg0 : cfg :=
      limit_request_field_size := default_limit_request_field_size; keepalive := 2; os_script_name := [47;97] |}.   (* "/a" *)
 Definition stranger : peer := PTuple [56;46;56;46;56;46;56] 5002.
 Definition env_of (data : bytes) : option env :=
-  match conn_run yes yes yes cfg0 WSync stranger data with REnv e :: _ => Some e | _ => None end.
+  match conn_run ok ok yes cfg0 WSync stranger data with REnv e :: _ => Some e | _ => None end.
 
 (* "GET /a/%41%zz" 0xE9 "%e9?q=%41#f HTTP/1.1" CRLF "Foo: 1" CRLF "foo:  2 " CRLF "Content-Type: t" CRLF CRLF *)
 Definition req1 : bytes :=
@@ -132,7 +133,7 @@ Theorem C15_content_type_duplicates_refuted :
   content_type_joins = false ->
   exists c p data e rq,
     safe_cfg c = true /\
-    conn_run yes yes yes c WSync p data = [REnv e] /\ sp_request data = Some rq /\
+    conn_run ok ok yes c WSync p data = [REnv e] /\ sp_request data = Some rq /\
     env_get s_CONTENT_TYPE e <> sp_var (fun _ => true) (s_fields rq) s_CONTENT_TYPE.
 Proof.
   intros Hflag.
